@@ -3,8 +3,8 @@ import ast
 
 from ..core import rule
 from ..index import AnalysisError, dotted, src, walk_no_nested, names_in
-from ..cfg import CFG
-from ..util import node_calls, own_expr, explore, mk_atoms
+from ..cfg import CFG, UNK
+from ..util import node_calls, own_expr, explore, mk_atoms, cfg_nodes_containing
 from .slots import ALLELES
 from .C01 import flatten
 
@@ -180,6 +180,55 @@ def r3(ctx):
         ok = fld in key_fields
         ctx.emit('C18-R3', ok, ALLELES, f, f'configuration field self.{fld} influences the cached content and is ' + ('part of' if ok else 'NOT part of') + ' the cache file name',
                  key=f'cache-key:{fld}', what=f'fetchChromosome: cache file name omits {fld}, which changes the cached content (a cache written under one setting is served under another)')
+    # path-sensitive: on EVERY path to the cache lookup the name still depends on the contig and on each of these fields (a branch that
+    # re-assigns the name from a constant loses everything appended before)
+    chromp = f.args.args[2].arg if len(f.args.args) > 2 else 'chrom'
+    top_idx = next(k for k, s_ in enumerate(f.body) if any(x is rc[0] for x in ast.walk(s_)))
+    cfg = CFG(f.body[:top_idx + 1], exceptions=False)
+    stop = set(cfg_nodes_containing(cfg, rc[0]))
+    arrivals = []
+
+    def attrs_and_names(e):
+        out = set()
+        for n in ast.walk(e):
+            if isinstance(n, ast.Attribute) and isinstance(n.value, ast.Name) and n.value.id == 'self':
+                out.add('self.' + n.attr)
+            elif isinstance(n, ast.Name) and n.id != 'self':
+                out.add(n.id)
+        return out
+
+    def step(state, node, label):
+        deps, ctl = state
+        if node.id in stop:
+            arrivals.append(deps)
+            return None
+        if node.kind == 'test' and label in ('true', 'false'):
+            ctl = ctl | frozenset(attrs_and_names(node.ast.test))
+        if node.kind == 'stmt' and isinstance(node.ast, (ast.Assign, ast.AugAssign)):
+            tg = node.ast.targets[0] if isinstance(node.ast, ast.Assign) else node.ast.target
+            if isinstance(tg, ast.Name):
+                new = set(ctl)
+                for x in attrs_and_names(node.ast.value):
+                    new |= deps.get(x, frozenset({x}))
+                if isinstance(node.ast, ast.AugAssign):
+                    new |= deps.get(tg.id, frozenset())
+                deps = dict(deps)
+                deps[tg.id] = frozenset(new)
+        return (deps, ctl)
+    cfg.paths(state0=({}, frozenset()), step=step, max_paths=20000)
+    argnames = names_in(rc[0].args[0])
+    lost = []
+    for deps in arrivals:
+        have = set()
+        for a_ in argnames:
+            have |= deps.get(a_, frozenset({a_}))
+        miss = [x for x in [chromp] + ['self.' + c_ for c_ in sorted(config & key_fields)] if x not in have]
+        if miss:
+            lost.append(miss)
+    ctx.counters['paths_enumerated'] += len(arrivals)
+    ctx.emit('C18-R3', bool(arrivals) and not lost, ALLELES, rc[0], f'on all {len(arrivals)} paths to the cache lookup the file name depends on the contig and on every key field' if arrivals and not lost else
+             f'on some path the cache file name does not depend on {lost[0] if lost else None}: different contigs / settings share one cache file', key='cache-key:every-path',
+             what='fetchChromosome: on some path the cache file name loses the contig or a configuration field')
     ctx.info(f'cache file name is built from chrom + {sorted(key_fields)}; compute path reads {sorted(config)}')
 
 
@@ -263,6 +312,32 @@ def r5(ctx):
                  f'flag `{name}` is set inside the record loop but not re-initialised per record before its read at line {bad[0].lineno}: once set it leaks into all later records of the fetch',
                  key=f'per-record-flag:{name}', what=f'fetchChromosome: flag {name} leaks between VCF records')
     ctx.need('C18-R5', n, 3, 'per-record flags')
+    # every allele of every considered genotype is examined: the loops over the samples / the alleles of a sample have no early exit
+    gl = [l for l in walk_no_nested(loop) if isinstance(l, ast.For) and ('.alleles' in src(l.iter) or '.samples' in src(l.iter))]
+    ctx.need('C18-R5', len(gl), 2, 'genotype loops (samples, alleles of a sample)')
+    for l in gl:
+        brk = [x for x in walk_no_nested(l) if isinstance(x, ast.Break) and not any(isinstance(p_, ast.For) and p_ is not l and any(y is x for y in ast.walk(p_)) for p_ in walk_no_nested(l))]
+        ctx.emit('C18-R5', not brk, ALLELES, brk[0] if brk else l, f'loop over `{src(l.iter)[:40]}` visits every element' if not brk else
+                 f'loop over `{src(l.iter)[:40]}` stops early (`break`): alleles / samples after a missing allele are never registered', key=f'genotype-loop-complete:{src(l.iter)[:30]}',
+                 what='fetchChromosome: a genotype loop has an early exit')
+    # the final informativeness decision of the phased branch: monomorphic site with a base -> informative; fewer than two bases -> not;
+    # otherwise the verdict reached so far (multi-base allele, unassigned selected sample) stands
+    dec = [s_ for s_ in walk_no_nested(loop) if isinstance(s_, ast.If) and 'monomorphic' in names_in(s_.test) and any(isinstance(a_, ast.Assign) and src(a_.targets[0]) == 'bad' for a_ in walk_no_nested(s_))]
+    if len(dec) == 1:
+        problems = []
+        for mono in (True, False):
+            for nb in (0, 1, 2):
+                for before in (True, False):
+                    at = lambda e, mono=mono, nb=nb: (nb if src(e) == 'len(bases_to_alleles)' else (mono if src(e) == 'monomorphic' else UNK))
+                    rs = explore([dec[0]], at, env0={'bad': before})
+                    got = {r['consts'].get('bad', 'unknown') for r in rs}
+                    want = False if (mono and nb > 0) else (True if nb < 2 else before)
+                    if got != {want}:
+                        problems.append(((mono, nb, before), sorted(map(str, got)), want))
+        ctx.counters['abstract_cases'] += 12
+        ctx.emit('C18-R5', not problems, ALLELES, dec[0], 'informativeness decision over (monomorphic, number of bases, verdict so far): a site judged bad earlier stays bad unless it is monomorphic with a base' if not problems else
+                 f'informativeness decision differs at (monomorphic, bases, bad before)={problems[0][0]}: bad becomes {problems[0][1]}, expected {problems[0][2]}', key='informativeness-decision',
+                 what='fetchChromosome: the final informativeness decision overwrites an earlier "bad" verdict')
     # conversion filter
     conv = [s for s in walk_no_nested(loop) if isinstance(s, ast.If) and 'ignore_conversions' in src(s.test)]
     ok = False
